@@ -107,7 +107,25 @@ def valFilter (j : Json) : Except String (List Int → Bool) := do
     pure fun v => v.contains n
   | _ => throw s!"unknown value filter {k}"
 
-def query (d : Doc) (j : Json) : Except String Json := do
+/-- `str.lower` for the strings of one case: `Py.lower` (ASCII), extended by the table the harness
+    sends (the real `str.lower` of every string of the case with letters outside ASCII, and of the
+    results). The model and its theorems take the function as a parameter. -/
+def lowerWith (tbl : List (List Char × List Char)) (s : List Char) : List Char :=
+  match tbl.lookup s with
+  | some t => t
+  | none => Py.lower s
+
+def decLowerTable (j : Json) : Except String (List (List Char × List Char)) :=
+  match j.getObjVal? "lower" with
+  | .ok (.arr xs) => xs.toList.mapM (fun e =>
+      match e with
+      | .arr #[.str a, .str b] => pure (a.toList, b.toList)
+      | _ => throw "lower: [string, string] expected")
+  | .ok .null => pure []
+  | .ok _ => throw "lower: array expected"
+  | .error _ => pure []
+
+def query (lw : List Char → List Char) (d : Doc) (j : Json) : Except String Json := do
   let q ← getStr j "q"
   match q with
   | "wf" => pure (jbool d.wf)
@@ -159,21 +177,22 @@ def query (d : Doc) (j : Json) : Except String Json := do
       (← valFilter (← getVal j "f"))
     pure (jarr (r.map encPK))
   | "find" =>
-    pure (encFound (find d (← decPos (← getVal j "cur")) (← decOptStr (← getVal j "key"))
+    pure (encFound (find lw d (← decPos (← getVal j "cur")) (← decOptStr (← getVal j "key"))
       (← decOptStr (← getVal j "type")) (← getBool j "all") (← getBool j "sub")))
   | "related" =>
-    pure (encFound (findRelated d (← decPos (← getVal j "cur")) (← decOptStr (← getVal j "key"))
+    pure (encFound (findRelated lw d (← decPos (← getVal j "cur")) (← decOptStr (← getVal j "key"))
       (← decOptStr (← getVal j "type")) (← getBool j "children") (← getBool j "siblings")
       (← getBool j "parents") (← getBool j "recursive") (← getBool j "all")))
   | _ => throw s!"unknown query {q}"
 
-def handle (j : Json) : Except String Json := do
+def handle1 (j : Json) : Except String Json := do
   let op ← getStr j "op"
   match op with
   | "tree" =>
     let d ← decDoc (← getVal j "doc")
     let qs ← getArr j "qs"
-    pure (jarr (← qs.toList.mapM (query d)))
+    let tbl ← decLowerTable j
+    pure (jarr (← qs.toList.mapM (query (lowerWith tbl) d)))
   | "posix" =>
     let f ← getStr j "f"
     let a := (← getStr j "a").toList
@@ -185,6 +204,18 @@ def handle (j : Json) : Except String Json := do
     | "relative" => pure (jchars (relativePath a (← getStr j "b").toList))
     | _ => throw s!"unknown posix function {f}"
   | _ => throw s!"unknown op {op}"
+
+/-- `{"op": "raw", "json": "<text>"}`: the request travels as JSON text inside a string (the harness
+    keeps tens of thousands of requests in memory; a string is an order of magnitude smaller than
+    the nested Python objects). Everything else is handled as before. -/
+def handle (j : Json) : Except String Json := do
+  let op ← getStr j "op"
+  match op with
+  | "raw" =>
+    match Json.parse (← getStr j "json") with
+    | .ok inner => handle1 inner
+    | .error e => throw s!"raw: {e}"
+  | _ => handle1 j
 
 end DrvC14
 
